@@ -7,6 +7,12 @@
 //! input; tree text == input; error ranges in bounds and on char boundaries; parsing is
 //! pure; error-free inputs keep their shape when spaces/newlines/block comments are
 //! inserted between adjacent tokens.
+//!
+//! Strengthened after seeded change C12-e (a statement lookahead window that counts trivia
+//! tokens): `c12/longgen.rs` prints error-free units with LONG token runs in front of the
+//! deciding token, `c12/bulk.rs` inserts trivia at many boundaries at once (every boundary,
+//! every k-th, before deciding tokens, long runs, windows), `c12/lengthen.rs` lengthens
+//! constructs of corpus files; plus a deterministic sweep over run lengths 1..=160.
 
 use std::sync::OnceLock;
 
@@ -19,11 +25,15 @@ use trust_syntax::parser::parse;
 use crate::engine::tape::{tape_strategy, Reader, Tape};
 use crate::engine::{Probe, PropertyInfo, RunCtx};
 
+mod bulk;
+mod lengthen;
+mod longgen;
+
 pub fn info() -> PropertyInfo {
     PropertyInfo {
         id: "C12",
         level: "exploration",
-        rule: "cases = random unicode strings, token soups (hand vocabulary + tokens harvested from /repo .st files), mutated corpus files (truncate/splice/delete/duplicate/swap tokens), nesting generators (depth <= 256) and whitespace/comment insertions into error-free inputs; non-trivial = input of >= 3 non-trivia tokens whose parse has both a completed node and an error, or an error-free input with >= 1 applicable insertion, or a nesting case of depth >= 32; distinct by SHA-256 of the input text (+ insertions)",
+        rule: "cases = random unicode strings, token soups (hand vocabulary + tokens harvested from /repo .st files), mutated corpus files (truncate/splice/delete/duplicate/swap tokens), nesting generators (depth <= 256) and whitespace/comment insertions into error-free inputs (single insertions into corpus files and fragments; bulk insertions - every boundary, every k-th, before deciding tokens, runs of up to 300 trivia tokens, windows - into generated error-free units with long token runs (1..300, biased to powers of two) before the deciding token, into corpus files and into corpus files with lengthened constructs; a deterministic sweep over run lengths 1..=160); non-trivial = input of >= 3 non-trivia tokens whose parse has both a completed node and an error, or an error-free input with >= 1 applicable insertion, or a nesting case of depth >= 32; distinct by SHA-256 of the input text (+ insertions)",
         assumptions: &[
             "stack overflow is judged against an 8 MiB stack (worker thread size = Linux main-thread default)",
             "nesting depth bound 256 (stated depth of the property)",
@@ -155,8 +165,25 @@ fn shape(node: &trust_syntax::SyntaxNode) -> Vec<String> {
     out
 }
 
+/// Result of the basic oracles on one text.
+pub struct Checked {
+    pub parse: trust_syntax::parser::Parse,
+    /// raw tokens (kind, start, end), trivia included
+    pub tokens: Vec<(TokenKind, usize, usize)>,
+    pub non_trivia: usize,
+    pub has_err: bool,
+    pub has_node: bool,
+}
+
 /// The basic oracles on one text. Returns (#non-trivia tokens, has_error, has_node).
 pub fn check_text(text: &str) -> Result<(usize, bool, bool), String> {
+    let c = check_text_full(text)?;
+    Ok((c.non_trivia, c.has_err, c.has_node))
+}
+
+/// The basic oracles on one text (tiling, lossless, error ranges, purity); hands back the
+/// tokens and the parse so that callers need not lex/parse again.
+pub fn check_text_full(text: &str) -> Result<Checked, String> {
     let tokens = token_texts(text);
     let mut pos = 0usize;
     let mut concat = String::with_capacity(text.len());
@@ -218,7 +245,14 @@ pub fn check_text(text: &str) -> Result<(usize, bool, bool), String> {
     }
     let non_trivia = tokens.iter().filter(|(k, _, _)| !k.is_trivia()).count();
     let has_node = tree.children().next().is_some();
-    Ok((non_trivia, !p1.ok(), has_node))
+    let has_err = !p1.ok();
+    Ok(Checked {
+        parse: p1,
+        tokens,
+        non_trivia,
+        has_err,
+        has_node,
+    })
 }
 
 fn basic(text: &String, probe: &mut Probe, class: &str) -> Result<(), String> {
@@ -595,6 +629,353 @@ fn valid_program_from_tape(tape: &Tape) -> String {
     s
 }
 
+// ---------------------------------------------------------------------------------
+// Bulk insertion into long constructs (generated, corpus, sweep)
+// ---------------------------------------------------------------------------------
+
+#[derive(Clone, Debug, Serialize, Deserialize)]
+pub struct BulkCase {
+    pub text: String,
+    /// classification computed by the generator (origin, construct kinds, run-length
+    /// buckets, style)
+    pub labels: Vec<String>,
+    pub edits: Vec<bulk::Edit>,
+}
+
+fn bucket(n: usize) -> &'static str {
+    match n {
+        0..=7 => "0-7",
+        8..=15 => "8-15",
+        16..=31 => "16-31",
+        32..=63 => "32-63",
+        64..=127 => "64-127",
+        128..=255 => "128-255",
+        _ => "256+",
+    }
+}
+
+fn edit_strategy() -> impl Strategy<Value = bulk::Edit> {
+    let nv = bulk::VERDICT_FILLERS.len() as u8;
+    (
+        0u8..bulk::MODES.len() as u8,
+        // mostly the three kinds of trivia the property names; other trivia now and then
+        prop_oneof![6 => 0u8..nv, 1 => nv..bulk::filler_count() as u8],
+        any::<u32>(),
+        any::<u32>(),
+    )
+        .prop_map(|(mode, filler, a, b)| bulk::Edit { mode, filler, a, b })
+}
+
+/// Tape for the long-construct generator: an explicit prefix of proptest-drawn words (the
+/// structural choices; shrinks word by word) followed by `len` words expanded from a drawn
+/// 64-bit seed (a pure function of the seed - splitmix64 - so a case is reproducible from
+/// its strategy value; shrinking `len` cuts the tail, which turns everything generated from
+/// it into the simplest choice). Drawing 1600 words one by one through proptest costs more
+/// than parsing the text they generate.
+fn long_tape_strategy() -> impl Strategy<Value = Tape> {
+    (tape_strategy(96), 0usize..1800, any::<u64>()).prop_map(|(prefix, len, seed)| {
+        let mut data = prefix.data;
+        data.reserve(len);
+        let mut x = seed;
+        for i in 0..len {
+            x = x.wrapping_add(0x9E37_79B9_7F4A_7C15);
+            let mut z = x;
+            z = (z ^ (z >> 30)).wrapping_mul(0xBF58_476D_1CE4_E5B9);
+            z = (z ^ (z >> 27)).wrapping_mul(0x94D0_49BB_1331_11EB);
+            z ^= z >> 31;
+            // like tape_strategy: mostly uniform words, some extreme ones
+            let w = match (z >> 32) as u32 % 8 {
+                0 => 0,
+                1 => u32::MAX,
+                2 => ((z as u32) >> 28) << 28,
+                _ => z as u32,
+            };
+            let _ = i;
+            data.push(w);
+        }
+        Tape { data }
+    })
+}
+
+fn long_case(tape: &Tape) -> (String, Vec<String>) {
+    let lt = longgen::generate(tape);
+    // lexing happens below, inside a strategy: a lexer panic must surface in the case (where
+    // it is caught, shrunk and reported), not kill the worker
+    match crate::engine::catch(|| long_case_labels(&lt)) {
+        Ok(labels) => (lt.text, labels),
+        Err(_) => (lt.text, vec!["long=lexer_panicked_in_generator".into()]),
+    }
+}
+
+fn long_case_labels(lt: &longgen::LongText) -> Vec<String> {
+    let mut labels: Vec<String> = Vec::new();
+    labels.push(format!("long_style={}", lt.style));
+    let mut kinds: Vec<&str> = Vec::new();
+    let mut max_run = 0usize;
+    let mut max_lhs = 0usize;
+    for (k, run) in &lt.constructs {
+        max_run = max_run.max(*run);
+        if k.starts_with("assign_path") || k.starts_with("assign_index") || k.starts_with("assign_special") {
+            max_lhs = max_lhs.max(*run);
+        }
+        if *run >= 8 && !kinds.contains(k) {
+            kinds.push(k);
+        }
+    }
+    for k in kinds {
+        labels.push(format!("long={k}"));
+    }
+    labels.push(format!("long_max_run={}", bucket(max_run)));
+    if max_lhs > 0 {
+        labels.push(format!("long_lhs_run={}", bucket(max_lhs)));
+    }
+    // did the join glue or split a token? (then the text is still a string to check, but
+    // not the program the generator meant)
+    let lexed = nontrivia_seq(&lt.text);
+    if lexed.len() != lt.tokens.len() || lexed.iter().zip(lt.tokens.iter()).any(|(a, b)| a.1 != *b) {
+        labels.push("long=join_changed_tokens".into());
+    }
+    labels
+}
+
+/// Indices of the corpus files that are error-free (as judged by the parser under test).
+fn clean_files() -> &'static Vec<usize> {
+    static C: OnceLock<Vec<usize>> = OnceLock::new();
+    C.get_or_init(|| {
+        let c = corpus();
+        (0..c.files.len())
+            .filter(|i| c.files[*i].len() <= 12_000 && parse(&c.files[*i]).ok())
+            .collect()
+    })
+}
+
+fn corpus_case(tape: &Tape) -> (String, Vec<String>) {
+    // parsing inside a strategy: see long_case
+    match crate::engine::catch(|| corpus_case_inner(tape)) {
+        Ok(v) => v,
+        Err(_) => {
+            let c = corpus();
+            let mut r = Reader::new(tape);
+            (c.files[r.pick(c.files.len())].clone(), vec!["corpus=parser_panicked_in_generator".into()])
+        }
+    }
+}
+
+fn corpus_case_inner(tape: &Tape) -> (String, Vec<String>) {
+    let c = corpus();
+    let clean = clean_files();
+    let mut r = Reader::new(tape);
+    let mut labels: Vec<String> = Vec::new();
+    if clean.is_empty() {
+        labels.push("corpus=no_error_free_file".into());
+        return (c.files[0].clone(), labels);
+    }
+    let mut text = c.files[clean[r.pick(clean.len())]].clone();
+    let rewrites = r.weighted(&[2, 3, 2, 1]);
+    let mut done = 0;
+    for _ in 0..rewrites {
+        let (res, r2) = lengthen::lengthen(&text, r);
+        r = r2;
+        match res {
+            Ok(l) => {
+                labels.push(format!("corpus_rw={}", l.kind));
+                labels.push(format!("corpus_rw_added={}", bucket(l.added)));
+                text = l.text;
+                done += 1;
+            }
+            Err(why) => labels.push(format!("corpus_rw_dropped={why}")),
+        }
+    }
+    labels.push(format!("corpus_rewrites={done}"));
+    (text, labels)
+}
+
+fn check_bulk(case: &BulkCase, probe: &mut Probe, origin: &str) -> Result<(), String> {
+    let checked = check_text_full(&case.text)?;
+    for l in &case.labels {
+        probe.label(l.clone());
+    }
+    if checked.has_err {
+        // not a verdict about the property: the generator promised an error-free text and
+        // the parser disagrees; counted so that a drifting generator shows in the histogram
+        probe.label(format!("{origin}=discard:{}", checked.parse.errors()[0].message));
+        return Ok(());
+    }
+    probe.label(format!("{origin}=error_free"));
+    let base = bulk::Base {
+        text: &case.text,
+        sig: bulk::shape_sig(&checked.parse.syntax()),
+        checked: &checked,
+    };
+    let mut judged = 0usize;
+    for e in &case.edits {
+        let (outcome, mode, _verdict) = bulk::check_edit(&base, e).map_err(|m| {
+            format!("{m}\n--- original text ({} bytes) ---\n{}", case.text.len(), truncate(&case.text, 1500))
+        })?;
+        match outcome {
+            bulk::Outcome::Judged(n) => {
+                judged += 1;
+                probe.label(format!("bulk_mode={mode}"));
+                probe.label(format!("bulk_points={}", bucket(n)));
+            }
+            bulk::Outcome::CrashOnly => probe.label("bulk=other_trivia_basic_oracles_only"),
+            bulk::Outcome::LexingChanged => probe.label("bulk=lexing_changed_skipped"),
+            bulk::Outcome::Empty => probe.label("bulk=no_insertion_point"),
+        }
+    }
+    if judged > 0 {
+        let mut key = case.text.as_bytes().to_vec();
+        for e in &case.edits {
+            key.push(e.mode);
+            key.push(e.filler);
+            key.extend_from_slice(&e.a.to_le_bytes());
+            key.extend_from_slice(&e.b.to_le_bytes());
+        }
+        probe.nontrivial(&key);
+        probe.sample(json!({"class": origin, "text": truncate(&case.text, 300), "labels": case.labels, "edits": case.edits.len()}));
+    }
+    Ok(())
+}
+
+/// Deterministic sweep: one construct, a run of exactly `n` list elements / selectors in
+/// front of its deciding token, tight or spaced.
+#[derive(Clone, Debug, Serialize, Deserialize)]
+pub struct SweepCase {
+    pub construct: u8,
+    pub n: u16,
+    pub style: u8,
+}
+
+const SWEEP_CONSTRUCTS: &[&str] = &[
+    "index_list_assign",
+    "field_path_assign",
+    "mixed_path_assign",
+    "case_name_labels",
+    "named_args_call_stmt",
+    "if_condition",
+    "call_rhs_args",
+    "var_name_list",
+    "enum_values",
+    "typed_enum_qualified_base",
+    "for_bound",
+    "case_int_labels_then_name_label",
+];
+
+fn sweep_text(c: &SweepCase) -> String {
+    let n = c.n.max(1) as usize;
+    let tight = c.style % 2 == 0;
+    let sp = if tight { "" } else { " " };
+    let nl = if tight { "" } else { "\n" };
+    let list = |f: &dyn Fn(usize) -> String, sep: &str| -> String {
+        (1..=n).map(f).collect::<Vec<_>>().join(sep)
+    };
+    let comma = format!(",{sp}");
+    let mut s = String::new();
+    match c.construct as usize % SWEEP_CONSTRUCTS.len() {
+        0 => {
+            s.push_str("PROGRAM Main\n");
+            s.push_str(&format!("m[{}]{sp}:={sp}0;{nl}", list(&|_| "a".into(), &comma)));
+            s.push_str("y:=1;\nEND_PROGRAM\n");
+        }
+        1 => {
+            s.push_str("PROGRAM Main\n");
+            s.push_str(&format!("p.{}{sp}:={sp}0;{nl}", list(&|i| format!("f{i}"), ".")));
+            s.push_str("END_PROGRAM\n");
+        }
+        2 => {
+            s.push_str("FUNCTION_BLOCK FB\n");
+            s.push_str("p");
+            for i in 1..=n {
+                match i % 3 {
+                    0 => s.push_str(&format!("[{i}]")),
+                    1 => s.push_str(&format!(".f{i}")),
+                    _ => s.push('^'),
+                }
+            }
+            s.push_str(&format!("{sp}:={sp}x{sp}+{sp}1;{nl}END_FUNCTION_BLOCK\n"));
+        }
+        3 => {
+            s.push_str("PROGRAM Main\nCASE x OF\n0:y:=1;\n");
+            s.push_str(&format!("{}{sp}:{sp}y{sp}:={sp}2;{nl}", list(&|i| format!("A{i}"), &comma)));
+            s.push_str("END_CASE\nEND_PROGRAM\n");
+        }
+        4 => {
+            s.push_str("PROGRAM Main\n");
+            s.push_str(&format!(
+                "F({});{nl}",
+                list(&|i| if i % 2 == 0 { format!("a{i}{sp}:={sp}{i}") } else { format!("q{i}{sp}=>{sp}b") }, &comma)
+            ));
+            s.push_str("y:=1;\nEND_PROGRAM\n");
+        }
+        5 => {
+            s.push_str("PROGRAM Main\nIF ");
+            s.push_str(&list(&|i| format!("a{i}"), " AND "));
+            s.push_str(&format!(" THEN{nl} x{sp}:={sp}1;{nl}END_IF\nEND_PROGRAM\n"));
+        }
+        6 => {
+            s.push_str("FUNCTION F : INT\n");
+            s.push_str(&format!("F{sp}:={sp}G({});{nl}", list(&|i| format!("{i}"), &comma)));
+            s.push_str("END_FUNCTION\n");
+        }
+        7 => {
+            s.push_str("PROGRAM Main\nVAR\n");
+            s.push_str(&format!("{}{sp}:{sp}INT;{nl}", list(&|i| format!("v{i}"), &comma)));
+            s.push_str("END_VAR\nx:=1;\nEND_PROGRAM\n");
+        }
+        8 => {
+            // untyped enum for odd lengths, enum with an elementary base type for even ones
+            let base = if n % 2 == 0 { "INT" } else { "" };
+            s.push_str("TYPE\n");
+            s.push_str(&format!("T{sp}:{sp}{base}({});{nl}", list(&|i| format!("E{i}"), &comma)));
+            s.push_str("END_TYPE\n");
+        }
+        9 => {
+            s.push_str("TYPE\n");
+            s.push_str(&format!("T{sp}:{sp}{}.Base{sp}(A,{sp}B{sp}:={sp}2);{nl}", list(&|i| format!("N{i}"), ".")));
+            s.push_str("END_TYPE\n");
+        }
+        10 => {
+            s.push_str("PROGRAM Main\nFOR i:=");
+            s.push_str(&list(&|i| format!("{i}"), "+"));
+            s.push_str(&format!(" TO 10 DO{nl} x{sp}:={sp}i;{nl}END_FOR\nEND_PROGRAM\n"));
+        }
+        _ => {
+            s.push_str("PROGRAM Main\nCASE x OF\n");
+            s.push_str(&format!("{}{sp}:{sp}y{sp}:={sp}1;{nl}", list(&|i| format!("{i}"), &comma)));
+            s.push_str(&format!("E.A,{sp}E.B{sp}:{sp}y{sp}:={sp}2;{nl}"));
+            s.push_str("ELSE y:=3;\nEND_CASE\nEND_PROGRAM\n");
+        }
+    }
+    s
+}
+
+fn sweep_edits(n: u16) -> Vec<bulk::Edit> {
+    let mut v = Vec::new();
+    for f in 0..bulk::VERDICT_FILLERS.len() as u8 {
+        v.push(bulk::Edit { mode: 0, filler: f, a: 0, b: 0 });
+    }
+    for f in [0u8, 2, 4, 7] {
+        v.push(bulk::Edit { mode: 6, filler: f, a: 0, b: 0 });
+    }
+    for f in [0u8, 2, 4] {
+        // one filler / a run of 8 in front of every deciding token
+        v.push(bulk::Edit { mode: 3, filler: f, a: 0, b: 0 });
+        v.push(bulk::Edit { mode: 3, filler: f, a: 7, b: 0 });
+    }
+    v.push(bulk::Edit { mode: 1, filler: 0, a: n as u32, b: 0 });
+    v.push(bulk::Edit { mode: 2, filler: 4, a: 0, b: 1 });
+    v
+}
+
+fn check_sweep(c: &SweepCase, probe: &mut Probe) -> Result<(), String> {
+    let case = BulkCase {
+        text: sweep_text(c),
+        labels: vec![format!("sweep={}", SWEEP_CONSTRUCTS[c.construct as usize % SWEEP_CONSTRUCTS.len()])],
+        edits: sweep_edits(c.n),
+    };
+    check_bulk(&case, probe, "sweep")
+}
+
 fn run(ctx: &mut RunCtx) {
     let tier = ctx.tier;
     let c = corpus();
@@ -632,6 +1013,10 @@ fn run(ctx: &mut RunCtx) {
     );
 
     // (4) nesting
+    ctx.note(format!(
+        "error-free corpus files of at most 12000 bytes (bases of corpus_bulk): {}",
+        clean_files().len()
+    ));
     let nest = (0u8..12, 0u16..=256, any::<bool>()).prop_map(|(kind, depth, close)| NestCase {
         kind,
         depth,
@@ -674,4 +1059,64 @@ fn run(ctx: &mut RunCtx) {
     )
         .prop_map(|(text, ins)| InsCase { text, ins });
     ctx.search("insertion", ins, tier.pick(40_000, 600_000), check_insertion);
+
+    // (6) bulk insertion into generated error-free units with long runs before the
+    //     deciding token
+    let long = (
+        long_tape_strategy().prop_map(|t| long_case(&t)),
+        proptest::collection::vec(edit_strategy(), 2..5),
+    )
+        .prop_map(|((text, labels), edits)| BulkCase { text, labels, edits });
+    ctx.search("long_bulk", long, tier.pick(LONG_QUICK, LONG_THOROUGH), |c: &BulkCase, p| {
+        check_bulk(c, p, "long")
+    });
+
+    // (7) bulk insertion into corpus files, plain or with lengthened constructs
+    let cb = (
+        tape_strategy(700).prop_map(|t| corpus_case(&t)),
+        proptest::collection::vec(edit_strategy(), 1..4),
+    )
+        .prop_map(|((text, labels), edits)| BulkCase { text, labels, edits });
+    ctx.search("corpus_bulk", cb, tier.pick(CORPUS_QUICK, CORPUS_THOROUGH), |c: &BulkCase, p| {
+        check_bulk(c, p, "corpus")
+    });
+
+    // (8) sweep over run lengths: every length 1..=80 and every second one up to 160
+    //     (thorough: 400) for every construct, tight and spaced; random lengths up to 700 in
+    //     thorough. The search with the same name claims replay files of this family.
+    let sweep = (0u8..SWEEP_CONSTRUCTS.len() as u8, 1u16..=700, 0u8..2)
+        .prop_map(|(construct, n, style)| SweepCase { construct, n, style });
+    ctx.search("sweep", sweep, tier.pick(0, 6000), check_sweep);
+    if ctx.only_replay.is_none() {
+        let max_n: u16 = tier.pick(160, 400) as u16;
+        let mut k = 0usize;
+        for construct in 0..SWEEP_CONSTRUCTS.len() as u8 {
+            // one report per construct and worker is enough
+            let before = ctx.stats.violations.len();
+            'lengths: for n in 1..=max_n {
+                // every length up to 80 elements (= 160 significant tokens when tight),
+                // every second one above
+                if n > 80 && n % 2 == 1 {
+                    continue;
+                }
+                for style in 0..2u8 {
+                    k += 1;
+                    if k % ctx.nworkers.max(1) != ctx.worker {
+                        continue;
+                    }
+                    let c = SweepCase { construct, n, style };
+                    let j = serde_json::to_value(&c).unwrap();
+                    ctx.enumerated("sweep", &j, |p| check_sweep(&c, p));
+                    if ctx.stats.violations.len() > before {
+                        break 'lengths;
+                    }
+                }
+            }
+        }
+    }
 }
+
+const LONG_QUICK: u32 = 24_000;
+const LONG_THOROUGH: u32 = 600_000;
+const CORPUS_QUICK: u32 = 8_000;
+const CORPUS_THOROUGH: u32 = 160_000;
